@@ -30,16 +30,16 @@ def P(pid, streams, oracle, rule, assumptions, examples=0, extra_modules=()):
 
 # (stream, cases quick, cases thorough); oracle = (id, budget quick, budget thorough)
 PROPS = {
-    'C01': P('C01', [('codepair', 10000, 80000), ('lines', 600, 4800), ('inlineops', 7500, 60000), ('link', 10000, 80000), ('entity', 10000, 80000), ('url', 10000, 80000), ('smap', 300, 2400), ('block', 6000, 48000), ('inline', 5000, 40000), ('pipeline', 1500, 12000), ('pipetabs', 1000, 8000), ('html', 6000, 48000), ('blockh', 2500, 20000), ('inlineh', 2500, 20000)], ('C01', 30000, 240000),
+    'C01': P('C01', [('codepair', 10000, 80000), ('lines', 600, 4800), ('inlineops', 7500, 60000), ('link', 10000, 80000), ('entity', 10000, 80000), ('url', 10000, 80000), ('smap', 300, 2400), ('block', 6000, 48000), ('inline', 5000, 40000), ('pipeline', 1500, 12000), ('pipetabs', 1000, 8000), ('html', 6000, 48000), ('blockh', 2500, 20000), ('inlineh', 2500, 20000), ('pipelineh', 1200, 9600)], ('C01', 30000, 240000),
              "oracle: parse->render->xrender under catch_unwind on grammar/spec/mutated/adversarial/malformed documents x configuration sample (subsets, orders, max_nesting); non-trivial = contains a markdown-significant character; distinct by hash of (cfg, source)",
              ["whole-pipeline totality theorem is _partial: mechanism theorems + rule-level correspondence + oracle cover the composition",
-              "hang = wall time beyond 2 s + 1 ms/byte; stack exhaustion is covered by C02"], extra_modules=(('InlineH', r'total|fuel|no_panic|progress|conservative|bounds|fires|advances|memo|guard|spec'), ('BlockH', r'total|fuel|noPanic|progress|conservative'), ('Html', r'no_panic|progress|overflow|link_level|tagMatch_spec|tagRest'), 'GenHtml', ('GenTranslated', r'is_odd_match'), 'TotalTabs', 'MemoSafe', 'InlineTotal', 'BlockTotal', ('DocTotal', r'panic_inline_only|parseDoc_blocks_ok'), ('EmphDepthDoc', r'doc_full_depth_bounded'), 'GenC17', 'GenC02', ('Pipeline', r'parseDoc_panic|renderDoc_panic|doc_render_total|spliceNode_panic|sourceposNode_total'), ('Block', r'progress|tokenize_spec|ruleAt'), ('Inline', r'progress|fuel|contracts'),)),
+              "hang = wall time beyond 2 s + 1 ms/byte; stack exhaustion is covered by C02"], extra_modules=(('PipelineH', r'panic_inline_only|total|blocks_ok|final|conservative|tables'), ('InlineH', r'total|fuel|no_panic|progress|conservative|bounds|fires|advances|memo|guard|spec'), ('BlockH', r'total|fuel|noPanic|progress|conservative'), ('Html', r'no_panic|progress|overflow|link_level|tagMatch_spec|tagRest'), 'GenHtml', ('GenTranslated', r'is_odd_match'), 'TotalTabs', 'MemoSafe', 'InlineTotal', 'BlockTotal', ('DocTotal', r'panic_inline_only|parseDoc_blocks_ok'), ('EmphDepthDoc', r'doc_full_depth_bounded'), 'GenC17', 'GenC02', ('Pipeline', r'parseDoc_panic|renderDoc_panic|doc_render_total|spliceNode_panic|sourceposNode_total'), ('Block', r'progress|tokenize_spec|ruleAt'), ('Inline', r'progress|fuel|contracts'),)),
     'C02': P('C02', [('nest', 4500, 36000), ('block', 3000, 24000), ('inline', 2500, 20000), ('pipeline', 1500, 12000)], ('C02', 3000, 20000),
              "oracle: 16 nesting families x sizes up to the budget x max_nesting in {0,1,3,10,100}; recursion gauge (hook) and tree depth compared with 4*max_nesting+16; non-trivial = size >= 150",
              ["actual stack exhaustion is a runtime fact; the model bounds frames and depth, the oracle observes the gauge on a 3 GiB-stack thread"], extra_modules=('EmphDepth', 'EmphDepthDoc', 'C02Doc', 'GenC02',)),
-    'C03': P('C03', [('render', 15000, 120000), ('noderender', 4000, 32000), ('pipeline', 1500, 12000)], ('C03', 20000, 160000),
+    'C03': P('C03', [('render', 15000, 120000), ('noderender', 4000, 32000), ('pipeline', 1500, 12000), ('pipelineh', 1200, 9600)], ('C03', 20000, 160000),
              "render stream: escape_html inputs and random event scripts (hostile payloads, empty strings, NUL, LF-terminated texts before cr) replayed into the REAL HTMLRenderer in both modes; oracle: recogniser of the safe output language on rendered hostile/generated documents under html-free configurations; non-trivial = payload with & < or quote / script with cr and >= 3 events",
-             ["attribute names pushed into node.attrs by plugins are &'static str; the theorems assume they are `data-sourcepos` (what the shipped sourcepos plugin pushes) - shown necessary by a witness"], extra_modules=(('Pipeline', r'doc_safe_output|doc_output_html_free|doc_output_renderable|final_hyps|parseDoc_final'), 'NodeRender', ('HrefConverse', r'tokens_of|doc_tokens_exact|doc_attrs_exact|doc_tag_pieces'), 'HrefNodup',)),
+             ["attribute names pushed into node.attrs by plugins are &'static str; the theorems assume they are `data-sourcepos` (what the shipped sourcepos plugin pushes) - shown necessary by a witness"], extra_modules=(('Pipeline', r'doc_safe_output|doc_output_html_free|doc_output_renderable|final_hyps|parseDoc_final'), 'NodeRender', ('HrefConverse', r'tokens_of|doc_tokens_exact|doc_attrs_exact|doc_tag_pieces'), 'HrefNodup', ('PipelineH', r'raw|conservative'),)),
     'C04': P('C04', [('link', 15000, 120000), ('inline', 5000, 40000), ('htmldecode', 8000, 64000), ('pipeline', 1500, 12000)], ('C04', 30000, 240000),
              "oracle: scheme spellings (case, named/decimal/hex references, escapes, embedded controls, percent escapes) x 8 syntactic positions; every Link/Image/Autolink url and every rendered href/src is fed to a WHATWG-style scheme extractor",
              ["browser behaviour is modelled by WHATWG URL pre-processing (strip C0/space at the ends, drop TAB/LF/CR) + ASCII-case-insensitive scheme"], extra_modules=('GenC17', ('LinksDoc', r'doc_urls_safe|doc_href|doc_link_render|parseDoc_every_kind|parseBlocks_refs_good|reference_step|tokenize_refs'), ('Inline', r'pipeline|fromPipeline'), 'HtmlDecode', 'HrefConverse', 'HrefNodup')),
@@ -58,9 +58,9 @@ PROPS = {
     'C09': P('C09', [('ruler', 20000, 160000), ('pstate', 10000, 80000)], ('C09', 20000, 160000),
              "ruler stream: random rule sets (0-9 rules, aliases, absent marks, self references, duplicates, all priorities) -> order or panic class of the REAL Ruler vs Lean compile; oracle: independent greedy specification in Rust; non-trivial = at least two constraints",
              ["marks are modelled as Nat; HashMap/HashSet as lists observed through membership only"]),
-    'C10': P('C10', [('lines', 900, 7200), ('block', 6000, 48000), ('pipeline', 1500, 12000), ('inline', 2500, 20000), ('blockh', 2500, 20000)], ('C10', 20000, 160000),
+    'C10': P('C10', [('lines', 900, 7200), ('block', 6000, 48000), ('pipeline', 1500, 12000), ('inline', 2500, 20000), ('blockh', 2500, 20000), ('pipelineh', 1200, 9600)], ('C10', 20000, 160000),
              "oracle: LF->CRLF, LF->CR and final-newline relations on the real crate for all generators x configuration sample incl. sourcepos",
-             [], extra_modules=(('BlockH', r'parseBlocksH_cr|parseBlocksH_crlf|final_newline|parseBlocksH_rel'), ('TotalTabs', r'crlf_invariant|no_inline_panic'), 'DocTotal2', 'C10Sourcepos', ('DocTotal', r'invariant_full'), ('BlockTotal', r'parseBlocks_fuel|tokenize_nf|testRules_nf'), 'C10Doc', ('Pipeline', r'doc_line_ending_reduction|render_ranges_irrelevant|erase_joinNode|spliceNode_congr'),)),
+             [], extra_modules=(('PipelineH', r'_cr$|_cr\b'), ('BlockH', r'parseBlocksH_cr|parseBlocksH_crlf|final_newline|parseBlocksH_rel'), ('TotalTabs', r'crlf_invariant|no_inline_panic'), 'DocTotal2', 'C10Sourcepos', ('DocTotal', r'invariant_full'), ('BlockTotal', r'parseBlocks_fuel|tokenize_nf|testRules_nf'), 'C10Doc', ('Pipeline', r'doc_line_ending_reduction|render_ranges_irrelevant|erase_joinNode|spliceNode_congr'),)),
     'C11': P('C11', [('codepair', 10000, 80000), ('lines', 600, 4800), ('block', 6000, 48000), ('pipeline', 1500, 12000)], ('C11', 20000, 160000),
              "oracle: payloads (fence look-alikes, entity/escape-like text, tabs, NUL, blank lines) x fenced/indented/span x nesting depth 0-3; node content and rendered <code> compared with the payload",
              ["span payloads: continuation lines do not start a block construct (block structure wins in CommonMark)"], extra_modules=('C11SpanCtx', 'C11SpanMulti', 'C11Span', 'C11Nested', ('C14Doc', r'doc_fence|doc_indented'), ('Block', r'verbatim'),)),
